@@ -169,7 +169,7 @@ func runConfig(engine, profile string, rt route, cells []cell) {
 	ok := stack.Eventually(10*time.Second, func() bool { return runtime.NumGoroutine() <= baseline+3 && be.OpenConns() == 0 })
 	if !ok {
 		violate("goroutines-or-connections-leaked", map[string]any{"engine": engine},
-			fmt.Sprintf("engine=%s profile=%s route=%s: after %d cells goroutines %d (baseline %d), backend connections still open %d", engine, profile, rt.name, len(cells), runtime.NumGoroutine(), baseline, be.OpenConns()),
+			fmt.Sprintf("engine=%s profile=%s route=%s: after %d cells goroutines %d (baseline %d), backend connections still open %d %v", engine, profile, rt.name, len(cells), runtime.NumGoroutine(), baseline, be.OpenConns(), be.OpenConnStates()),
 			map[string]any{"engine": "stack", "config": engine + "/" + profile + "/" + rt.name})
 	}
 }
@@ -179,6 +179,7 @@ func runCell(o *stack.Olla, be *stack.Backend, c cell) {
 	var s *stack.Stream
 	var mu sync.Mutex
 	release := make(chan struct{})
+	rel := release // the gate goroutine's own reference: the variable above is set to nil once the channel is closed
 	var problem, clause string
 	peerClosed := make(chan bool, 1)
 	fail := func(cl, p string) {
@@ -223,12 +224,12 @@ func runCell(o *stack.Olla, be *stack.Backend, c cell) {
 			for k := 0; k < 45; k++ {
 				vclock.Advance(31 * time.Second)
 				select {
-				case <-release:
+				case <-rel:
 					return false
 				case <-time.After(300 * time.Millisecond):
 				}
 			}
-			<-release
+			<-rel
 			return false
 		case "abort":
 			s.Abort()
@@ -376,6 +377,8 @@ func main() {
 	}
 	ebytes()
 	ehead()
+	eslow()
+	res.Info["E-slow"] = "the client stops reading after the headers of a 24 MiB response while the engine's clock moves 3 x 31 s (read timeout 30 s), then reads on: the complete body arrives; both engines, SSE and JSON"
 	res.Info["E-head"] = "real time: the backend accepts the request and never answers, response_timeout = read_timeout = 2 s, proxy and translated route, both engines: the exchange must end within 9 s"
 	res.Info["E-bytes"] = "byte-exact delivery: 2 engines x stream_buffer_size {4 KiB, 8 KiB, 16 KiB, 64 KiB} x {SSE, JSON} x every ordered pair (triple thorough) of chunk sizes {3000, 6000, 8192, 12000, 20000} plus three longer schedules, non-repeating content, each chunk written after the client has the previous one"
 	res.Info["grid"] = map[string]any{"engines": []string{"sherpa", "olla"}, "profiles": []string{"auto", "streaming", "standard"}, "routes": []string{"proxy", "provider", "anthropic-passthrough", "anthropic-translation"},
